@@ -198,6 +198,8 @@ class NestedParent(WrappingQuery):
                     self._nextdoc = None
 
         def skip_to(self, id):
+            if self._nextdoc is not None and id <= self._nextdoc:
+                return
             self.child.skip_to(id)
             self._gather()
 
